@@ -422,6 +422,31 @@ fn fl_cfg() -> FiveLevelPoolConfig {
 fn fl_face() -> Arc<dyn PoolFace> {
     Arc::new(FlFace { pool: LockFreePool::new(fl_cfg()).expect("five-level lock-free pool"), size: 64, population: None })
 }
+/// five-level LockFreePool whose block size is EXACTLY max_fast_block_size (the boundary between the lock-free fast bins
+/// and the mutex-protected huge list), in a region small enough to drain: no block may be lost at quiescence
+fn fl_small_cfg() -> FiveLevelPoolConfig {
+    let mut c = fl_cfg();
+    c.max_fast_block_size = 64;
+    c.initial_capacity = 2048;
+    c
+}
+fn fl_face_small() -> Arc<dyn PoolFace> {
+    static POP: std::sync::OnceLock<Option<usize>> = std::sync::OnceLock::new();
+    let n = *POP.get_or_init(|| {
+        let p = LockFreePool::new(fl_small_cfg()).expect("five-level lock-free pool");
+        let mut n = 0;
+        while n < 4096 && p.alloc(64).is_ok() {
+            n += 1;
+        }
+        // a pool that grows on demand has no fixed population
+        if n >= 4096 {
+            None
+        } else {
+            Some(n)
+        }
+    });
+    Arc::new(FlFace { pool: LockFreePool::new(fl_small_cfg()).expect("five-level lock-free pool"), size: 64, population: n })
+}
 fn secure_face_with(local_cache: usize) -> Arc<dyn PoolFace> {
     let mut cfg = SecurePoolConfig::new(64, 16, 8);
     cfg.local_cache_size = local_cache;
@@ -500,6 +525,15 @@ fn main() {
         reg.add(Sched(PoolSpec {
             name: "LockFreeMemoryPool[2 KiB] H2c: whole population drained at quiescence (no block lost), cross-thread free",
             make: lf_face_small,
+            prefill: 3,
+            threads: vec![vec![Alloc, Alloc, Give, FreeOldest], vec![Alloc, FreeGiven, FreeOldest]],
+            bound_quick: 2,
+            bound_thorough: 4,
+            uaf_site: None,
+        }));
+        reg.add(Sched(PoolSpec {
+            name: "five_level::LockFreePool[2 KiB, block = max_fast_block_size] H3c: whole population drained at quiescence, cross-thread free",
+            make: fl_face_small,
             prefill: 3,
             threads: vec![vec![Alloc, Alloc, Give, FreeOldest], vec![Alloc, FreeGiven, FreeOldest]],
             bound_quick: 2,
